@@ -621,8 +621,9 @@ func (fe *FuncEnc) unop(x *ssa.UnOp, st *State) {
 				fe.loadTop = "" // composite loads read several versions
 			}
 			fe.assume(st, fe.typeFacts(st, fe.vals[x], x.Type()))
+			fe.assume(st, fe.versionFact(fe.vals[x], x.Type()))
 		}
-		fe.loadTop = ""
+		fe.loadTop, fe.loadAddr = "", ""
 	case token.NOT:
 		fe.setVal(x, not(fe.val(x.X)))
 	case token.SUB:
@@ -940,8 +941,15 @@ func (fe *FuncEnc) lookup(x *ssa.Lookup, st *State) {
 func (fe *FuncEnc) next(x *ssa.Next, st *State) {
 	tt := x.Type().(*types.Tuple)
 	ok := fe.sc.declare(x.Name()+".ok", sBool)
-	k := fe.sc.declare(x.Name()+".k", fe.sorts().sortOf(tt.At(1).Type()))
-	v := fe.sc.declare(x.Name()+".v", fe.sorts().sortOf(tt.At(2).Type()))
+	kT, vT := tt.At(1).Type(), tt.At(2).Type()
+	if r0 := fe.rangeOf[fe.val(x.Iter)]; r0 != nil {
+		if mt0, isMap := r0.X.Type().Underlying().(*types.Map); isMap {
+			// unused key/value variables have no type in the tuple: use the map's
+			kT, vT = mt0.Key(), mt0.Elem()
+		}
+	}
+	k := fe.sc.declare(x.Name()+".k", fe.sorts().sortOf(kT))
+	v := fe.sc.declare(x.Name()+".v", fe.sorts().sortOf(vT))
 	fe.tups[x] = []string{ok, k, v}
 	rng := fe.rangeOf[fe.val(x.Iter)]
 	if rng == nil {
@@ -955,11 +963,9 @@ func (fe *FuncEnc) next(x *ssa.Next, st *State) {
 	if mt, isMap := rng.X.Type().Underlying().(*types.Map); isMap {
 		m := fe.val(rng.X)
 		facts := []string{"(not (= " + m + " 0))", fmt.Sprintf("(select %s %s)", fe.mapHasArr(st, mt, m), k)}
-		if tt.At(2).Type() != types.Typ[types.Invalid] {
-			facts = append(facts, fmt.Sprintf("(= %s (select %s %s))", v, fe.mapValArr(st, mt, m), k))
-			facts = append(facts, fe.typeFacts(st, v, tt.At(2).Type()))
-		}
-		facts = append(facts, fe.typeFacts(st, k, tt.At(1).Type()))
+		facts = append(facts, fmt.Sprintf("(= %s (select %s %s))", v, fe.mapValArr(st, mt, m), k))
+		facts = append(facts, fe.typeFacts(st, v, mt.Elem()))
+		facts = append(facts, fe.typeFacts(st, k, mt.Key()))
 		key := "visited:" + rng.Name()
 		if vis, okv := st.ghost[key]; okv {
 			srt := fe.ghostSorts[key]
